@@ -89,6 +89,7 @@ type hCalc struct {
 	// the reader hands over its final bytes TOGETHER with io.EOF (allowed by the io.Reader contract:
 	// iotest.DataErrReader, compress/flate, archive readers do it)
 	eofWithData bool
+	plainAPI    bool // Calculate(r) instead of CalculateWithContext(ctx, r)
 }
 
 type scriptReader struct {
@@ -152,6 +153,7 @@ func genCalc(rnd *hx.Rand, maxLen int) hCalc {
 		left -= k
 	}
 	c.eofWithData = rnd.Chance(30)
+	c.plainAPI = rnd.Chance(35)
 	switch x := rnd.Intn(100); {
 	case x < 25:
 		c.mode, c.at = "readerr", rnd.Intn(n+1)
@@ -217,7 +219,16 @@ func hashMain(args []string) {
 					if ch != nil {
 						before = ch.total
 					}
-					res, err := hh.CalculateWithContext(ctx, &scriptReader{c: &c, cancel: cancel})
+					var res string
+					var err error
+					if c.plainAPI && c.mode != "cancel" {
+						// the entry point without a context
+						res, err = hh.Calculate(&scriptReader{c: &c, cancel: cancel})
+						rep.Hist("api:Calculate")
+					} else {
+						res, err = hh.CalculateWithContext(ctx, &scriptReader{c: &c, cancel: cancel})
+						rep.Hist("api:CalculateWithContext")
+					}
 					cancel()
 					descs = append(descs, fmt.Sprintf("%s(len=%d,chunks=%d,at=%d,eofWithData=%v)", c.mode, len(c.content), len(c.chunks), c.at, c.eofWithData))
 					if c.eofWithData && len(c.content) > 0 {
